@@ -2033,3 +2033,17 @@ TABLE["C04"] += [
     B("unqualified-base-resolved-in-the-class-namespace", {"B16"},
       (TI + "classes.py", "        else:\n            return self.original.parent_class\n", "        elif self.original.parent_class and not self.original.parent_class.namespaces and self.parent and self.parent.name:\n            return parser.Typename(self.parent.full_namespaces() + [self.original.parent_class.name])\n        else:\n            return self.original.parent_class\n")),
 ]
+TABLE["C01"] += [
+    B("std-string-canonicalised-in-custom-types", {"G19"},
+      (IP + "type.py", "    def __init__(self, t: ParseResults):\n        self.typename = Typename(t)\n\n\nclass Type:", "    def __init__(self, t: ParseResults):\n        self.typename = Typename(t)\n        if self.typename.qualified_name() == \"std::string\":\n            self.typename = Typename([\"string\"])\n\n\nclass Type:")),
+    B("namespace-keeps-one-forward-declaration-per-name", {"G19"},
+      (IP + "namespace.py", "        self.content = content\n", "        seen_, kept_ = [], []\n        for el_ in content:\n            if isinstance(el_, ForwardDeclaration):\n                if el_.typename in seen_:\n                    continue\n                seen_.append(el_.typename)\n            kept_.append(el_)\n        self.content = kept_\n")),
+]
+TABLE["C19"] += [
+    B("typename-constructor-copies-what-copy-copied", {"Z9"},
+      (IP + "type.py", "        if instantiations:\n            if isinstance(instantiations, Sequence):\n                self.instantiations = instantiations  # type: ignore\n            else:\n                self.instantiations = instantiations.asList()\n        else:\n            self.instantiations = []\n",
+       "        self.instantiations = [inst.copy() for inst in instantiations]\n\n    def copy(self):\n        return Typename(self.namespaces + [self.name], [inst.copy() for inst in self.instantiations])\n")),
+    N("typename-copy-with-a-constructor-that-keeps-its-list",
+      (IP + "type.py", "        if instantiations:\n            if isinstance(instantiations, Sequence):\n                self.instantiations = instantiations  # type: ignore\n            else:\n                self.instantiations = instantiations.asList()\n        else:\n            self.instantiations = []\n",
+       "        self.instantiations = list(instantiations)\n\n    def copy(self):\n        return Typename(self.namespaces + [self.name], [inst.copy() for inst in self.instantiations])\n")),
+]
